@@ -6,13 +6,22 @@ the checks against the patched worktree (VERIF_REPO) and records which ones rais
 Writes /verif/seeded/<name>/{patch.diff,demo.rs,meta.json}. Removes the worktree and its build output."""
 import json, os, shutil, subprocess, sys, tempfile, hashlib, time
 VERIF = os.path.dirname(os.path.dirname(os.path.abspath(__file__)))
-src, k, name = sys.argv[1], sys.argv[2], sys.argv[3]
 props = ['C%02d' % i for i in range(1, 21)]
 if '--props' in sys.argv:
     props = sys.argv[sys.argv.index('--props') + 1].split(',')
-patch = os.path.join(src, 'patch%s.diff' % k)
-demo = os.path.join(src, 'demo%s.rs' % k)
-meta = json.load(open(os.path.join(src, 'meta%s.json' % k)))
+if sys.argv[1] == '--seeded':
+    # re-evaluate a kept change: tools/try_mutant.py --seeded <name>
+    name = sys.argv[2]
+    src = os.path.join(VERIF, 'seeded', name)
+    shutil.copy(os.path.join(src, 'patch.diff'), os.path.join(src, '.patch.tmp'))
+    shutil.copy(os.path.join(src, 'demo.rs'), os.path.join(src, '.demo.tmp'))
+    patch, demo = os.path.join(src, '.patch.tmp'), os.path.join(src, '.demo.tmp')
+    meta = json.load(open(os.path.join(src, 'meta.json')))
+else:
+    src, k, name = sys.argv[1], sys.argv[2], sys.argv[3]
+    patch = os.path.join(src, 'patch%s.diff' % k)
+    demo = os.path.join(src, 'demo%s.rs' % k)
+    meta = json.load(open(os.path.join(src, 'meta%s.json' % k)))
 wt = tempfile.mkdtemp(prefix='mw-', dir='/tmp')
 os.rmdir(wt)
 env = dict(os.environ, CARGO_NET_OFFLINE='true', CARGO_TARGET_DIR=os.path.join(wt, 'target'))
@@ -62,7 +71,8 @@ finally:
     shutil.rmtree(wt, ignore_errors=True)
     for d in ('harness-', 'target-', 'selftest-'):
         shutil.rmtree(os.path.join(VERIF, '.cache', d + tag), ignore_errors=True)
-    try:
-        os.remove(os.path.join(VERIF, '.cache', 'cargo-%s.lock' % tag))
-    except OSError:
-        pass
+    for f in (os.path.join(VERIF, '.cache', 'cargo-%s.lock' % tag), os.path.join(VERIF, 'seeded', name, '.patch.tmp'), os.path.join(VERIF, 'seeded', name, '.demo.tmp')):
+        try:
+            os.remove(f)
+        except OSError:
+            pass
